@@ -1,11 +1,11 @@
 package main
 
 import (
-	"os"
 	"fmt"
 	"go/constant"
 	"go/token"
 	"go/types"
+	"os"
 	"sort"
 	"strings"
 
@@ -670,6 +670,8 @@ func runC06(c *Ctx) {
 			}
 		})
 		c.check(okT && okP, "R3", "recvPacket splits type and payload", p.Pos(rp.Pos()), "typ = b[0], payload = b[1:n]", "recvPacket no longer returns b[0] as the type and b[1:n] as the payload")
+	} else {
+		c.missing("R3", "recvPacket")
 	}
 
 	// ---------- R4 integer primitives ----------
@@ -698,6 +700,8 @@ func runC06(c *Ctx) {
 				}
 			})
 			c.check(be, "R5", "StatVFS big endian", p.Pos(mp.Pos()), "binary.Write(…, BigEndian, p)", "the statvfs reply is not written big-endian")
+		} else {
+			c.missing("R5", "(*StatVFS).marshalPacket")
 		}
 	}
 
@@ -1019,6 +1023,8 @@ func checkBigEndian(c *Ctx) {
 			}
 		})
 		c.check(eq(shifts, []int64{32, 0}), "R4", "marshalUint64 halves", p.Pos(f.Pos()), "high word then low word", fmt.Sprintf("marshalUint64 writes the words with shifts %v", shifts))
+	} else {
+		c.missing("R4", "marshalUint64")
 	}
 	if f := p.Func("unmarshalUint64"); f != nil {
 		okH := false
@@ -1037,6 +1043,8 @@ func checkBigEndian(c *Ctx) {
 			}
 		})
 		c.check(okH, "R4", "unmarshalUint64 halves", p.Pos(f.Pos()), "first word is the high half", "unmarshalUint64 does not treat the first word as the high half")
+	} else {
+		c.missing("R4", "unmarshalUint64")
 	}
 	if f := p.Func("marshalString"); f != nil {
 		okS := false
@@ -1048,6 +1056,8 @@ func checkBigEndian(c *Ctx) {
 			}
 		})
 		c.check(okS, "R4", "marshalString length prefix", p.Pos(f.Pos()), "uint32(len(v)) then bytes", "marshalString does not prefix the byte length of the string")
+	} else {
+		c.missing("R4", "marshalString")
 	}
 	for _, name := range []string{"(*Buffer).ConsumeUint32", "(*Buffer).ConsumeUint64", "(*Buffer).ConsumeUint16"} {
 		if f := p.FuncIn(p.Sshfx, name); f != nil {
